@@ -122,7 +122,7 @@ def main():
                     shared = St("s", ds["s"], log)      # ONE store object registered as the source of two nodes
                     s = reg.source(plan, shared)
                     s2 = reg.source(plan, shared)
-                elif ci % 4 == 2:
+                elif ci % 4 == 2 and c.get("allow_dependent_source"):
                     # s2 is a DEPENDENT source: an unregistered call must run before it when (and only when) s2 is out of date
                     s = reg.source(plan, St("s", ds["s"], log))
                     s2 = None
